@@ -338,14 +338,18 @@ Inductive sval : Type := VNum (x : xq) | VStr (s : string).
 
 Definition sval_nan (v : sval) : bool := match v with VNum NaN => true | _ => false end.
 
-(* <= on non-NaN values (numbers among themselves, labels among themselves) *)
+(* <= on values (numbers among themselves, labels among themselves).  NaN never reaches a
+   comparison (the collator puts NaN-valued vectors in a separate bucket first); it is
+   placed below everything only to make the relation a total preorder. *)
 Definition num_leb (a b : xq) : bool :=
   match a, b with
-  | NaN, _ | _, NaN => false
+  | NaN, _ => true
+  | _, NaN => false
   | Inf true, _ => true
+  | _, Inf true => false
   | _, Inf false => true
+  | Inf false, _ => false
   | Fin p, Fin q => Qle_bool p q
-  | _, _ => false
   end.
 Definition sval_leb (a b : sval) : bool :=
   match a, b with
